@@ -417,6 +417,13 @@ func (c *Ctx) minLenAt(n ast.Node, base string, stop ast.Node) int64 {
 				}
 			}
 		case *ast.ForStmt:
+			if x.Post == child && x.Cond != nil && !c.assignedBefore(x.Body, base, x.Post) {
+				// the post statement runs after an iteration whose condition held and whose body left the operand alone
+				for _, cj := range conjuncts(x.Cond) {
+					t, _ := c.lenBound(cj, base)
+					upd(t)
+				}
+			}
 			if x.Body == child && x.Cond != nil && !c.assignedBefore(x.Body, base, n) {
 				for _, cj := range conjuncts(x.Cond) {
 					t, _ := c.lenBound(cj, base)
@@ -522,6 +529,12 @@ func (c *Ctx) dischargeIndex(s *panSite, fnBody ast.Node) string {
 						}
 					}
 				}
+			}
+		}
+		// index returned by slices.Index/IndexFunc over the same slice, after `if idx < 0 { return }`
+		if id, ok := unparen(idx).(*ast.Ident); ok {
+			if why := c.foundIndex(s.Node, id, bsrc, fnBody); why != "" {
+				return why
 			}
 		}
 		// variable index under `0 <= i && i < len(B)`
@@ -737,6 +750,58 @@ func (c *Ctx) boundedByGuard(n ast.Node, id *ast.Ident, base string, stop ast.No
 			if lower && upper && !c.assignedBefore(ifs.Body, id.Name, n) && !c.assignedBefore(ifs.Body, base, n) {
 				return "index is tested `0 <= i && i < len(operand)` by the enclosing if"
 			}
+		}
+		if p == stop {
+			break
+		}
+	}
+	return ""
+}
+
+// foundIndex: id := slices.Index/IndexFunc(B, ..) and a preceding terminating `if id < 0` in the same block.
+func (c *Ctx) foundIndex(n ast.Node, id *ast.Ident, base string, stop ast.Node) string {
+	o := c.Obj(id)
+	var child ast.Node = n
+	for p := c.Parent(n); p != nil; child, p = p, c.Parent(p) {
+		var list []ast.Stmt
+		switch x := p.(type) {
+		case *ast.BlockStmt:
+			list = x.List
+		case *ast.CaseClause:
+			list = x.Body
+		}
+		def, guard := false, false
+		for _, st := range list {
+			if st == child || st.Pos() >= child.Pos() {
+				break
+			}
+			if as, ok := st.(*ast.AssignStmt); ok && len(as.Lhs) == 1 && len(as.Rhs) == 1 {
+				if lid, ok := as.Lhs[0].(*ast.Ident); ok && c.Obj(lid) == o {
+					def = false
+					if call, ok := unparen(as.Rhs[0]).(*ast.CallExpr); ok {
+						cn := c.CalleeName(call)
+						if (strings.HasSuffix(cn, "slices.Index") || strings.HasSuffix(cn, "slices.IndexFunc")) && len(call.Args) == 2 && nosp(c.Src(call.Args[0])) == base {
+							def = true
+						}
+					}
+					guard = false
+				}
+				if nosp(c.Src(as.Lhs[0])) == base {
+					def, guard = false, false // the slice changed
+				}
+			}
+			if ifs, ok := st.(*ast.IfStmt); ok && def && ifs.Else == nil && terminating(ifs.Body) {
+				if be, ok := unparen(ifs.Cond).(*ast.BinaryExpr); ok {
+					if xid, ok := unparen(be.X).(*ast.Ident); ok && c.Obj(xid) == o {
+						if k, ok := c.ConstInt(be.Y); ok && (be.Op == token.LSS && k == 0 || be.Op == token.EQL && k == -1 || be.Op == token.LEQ && k == -1) {
+							guard = true
+						}
+					}
+				}
+			}
+		}
+		if def && guard {
+			return "index is the position slices.Index/IndexFunc found in the same slice, after the not-found case returned"
 		}
 		if p == stop {
 			break
